@@ -125,8 +125,12 @@ Definition pow2 (a : N) : Prop := exists k, a = 2 ^ k.
 Definition wf_ty (T : ty) : Prop :=
   pow2 (al T) /\ sz T mod al T = 0 /\ sz T <= ISIZE_MAX.
 
+(* rustc's upper bound on alignments: 2^29 *)
+Definition MAX_ALIGN : N := 2 ^ 29.
+
+(* the unsafe contract of CheckedBitPattern: Bits has the layout of Self *)
 Definition wf_cty (T : cty) : Prop :=
-  wf_ty T /\ sz (c_bits T) = sz T /\ al (c_bits T) = al T.
+  wf_ty T /\ wf_ty (c_bits T) /\ sz (c_bits T) = sz T /\ al (c_bits T) = al T.
 
 (* a valid &[A]: non-null, aligned, its extent is exactly its byte size, which fits isize and
    the address space *)
